@@ -1,0 +1,30 @@
+//go:build verif
+
+// Contracts for govc (/verif): C25, the transaction-building helpers used by kernel/mint.go. Comment-only file.
+
+package common
+
+//@ -- an address whose two public keys decode to curve points (checked when a node is pledged / the custodian is updated)
+//@ spec AddrPointsOK(a *Address) bool = a != nil && crypto.ValidPoint(a.PublicViewKey) && crypto.ValidPoint(a.PublicSpendKey)
+
+//@ -- NewAddressFromSeedInternalVanish: keys derived from the seed (sha3, scalar reduction, base-point multiplication). ASSUMED:
+//@ -- a 64-byte seed never fails, and the public key of a scalar is a valid point.
+//@ assume func NewAddressFromSeedInternalVanish(seed)
+//@   requires len(seed) == 64
+//@   modifies nothing
+//@   ensures crypto.ValidPoint(result.PublicViewKey) && crypto.ValidPoint(result.PublicSpendKey)
+
+//@ -- AddOutputWithType appends exactly one new output carrying `amount`; earlier outputs are untouched.
+//@ func (tx *Transaction) AddOutputWithType
+//@   property C25
+//@   requires tx != nil && (len(accounts) > 0 ==> len(seed) == 64)
+//@   requires forall k int :: 0 <= k && k < len(accounts) ==> AddrPointsOK(accounts[k])
+//@   panics when len(tx.Outputs) >= SliceCountLimit
+//@   modifies tx.Outputs, tx.Outputs[..cap]
+//@   ensures [appended] len(tx.Outputs) == old(len(tx.Outputs)) + 1 &&
+//@       (forall k int :: 0 <= k && k < old(len(tx.Outputs)) ==> tx.Outputs[k] == old(tx.Outputs[k]))
+//@   ensures [block] fresh(tx.Outputs) || (arr(tx.Outputs) == old(arr(tx.Outputs)) && old(cap(tx.Outputs)) > old(len(tx.Outputs)))
+//@   ensures [new] tx.Outputs[old(len(tx.Outputs))] != nil && fresh(tx.Outputs[old(len(tx.Outputs))]) && allocated(tx.Outputs[old(len(tx.Outputs))]) &&
+//@       val(tx.Outputs[old(len(tx.Outputs))].Amount) == val(amount) && tx.Outputs[old(len(tx.Outputs))].Type == ot
+//@   loop 0 invariant out != nil && fresh(out) && fresh(out.Keys) && val(out.Amount) == val(amount) && out.Type == ot && crypto.CanonicalScalarKey(r)
+//@   loop 0 invariant len(tx.Outputs) == old(len(tx.Outputs)) && tx.Outputs == old(tx.Outputs)
